@@ -52,6 +52,9 @@ def estimate_minor(
                 mutations |= set(minor.neutral_muts)
         mutations |= set(major_sol.added)
     mutations |= gene.random_mutations
+    # The candidate list (hence the order of the model variables, which breaks ties
+    # between equally good refinements) must not depend on the order of `major_sols`
+    alleles = natsorted(set(alleles), key=lambda a: (str(a.major), str(a.minor)))
 
     # Filter out low quality mutations
     # (the filter depends on the gene structure, so it is built per structure)
